@@ -60,9 +60,14 @@ def _modesel(chk):
                 good = False
                 for o in sels:
                     m = {k.arg: k.value for k in o.node.keywords}.get("mode")
+                    if m is None and o.node.args and isinstance(o.node.args[0], ast.Dict):
+                        for k, v in zip(o.node.args[0].keys, o.node.args[0].values):
+                            if const_str(k) == "mode":
+                                m = v
                     if m is not None:
                         for q in ff.paths(m, spine_only=True):
-                            if q.atom.kind == "param" and q.atom.name in params and q.has_op("attr", "mode"):
+                            if q.atom.kind == "param" and q.atom.name in params and (
+                                    q.has_op("attr", "mode") or any(y.kind == "subscript" and "mode" in y.name for y in q.ops)):
                                 good = True
                 ok = ok and good
             chk.check(ok, "MIRROR.modesel", fn, b,
